@@ -15,4 +15,9 @@ rsync -a --delete /verif/sim/harness/ $D/repo/zzverif/
 printf 'package main\n\nimport _ "github.com/openconfig/goyang/zzverif/clihook"\n' > $D/repo/zz_clihook.go
 cd $D/repo && go build ./zzverif/... && go build -trimpath -o $D/yangsim ./zzverif/cmd/yangsim && go build -trimpath -o $D/goyang-cli . && echo built $D/yangsim
 go build -trimpath -o $D/yangdbg ./zzverif/cmd/yangdbg
-if [ "${DEV_RACE:-0}" = "1" ]; then go build -race -trimpath -o $D/yangsim-race ./zzverif/cmd/yangsim && echo built race; fi
+if [ "${DEV_RACE:-0}" = "1" ]; then
+  mkdir -p $D/ovl; R=$(go env GOROOT)
+  sed 's/if runtime_randn(4) == 0 {/if true {/' $R/src/sync/pool.go > $D/ovl/pool.go
+  printf '{"Replace": {"%s/src/sync/pool.go": "%s/ovl/pool.go"}}\n' $R $D > $D/ovl/overlay.json
+  go build -race -trimpath -overlay $D/ovl/overlay.json -o $D/yangsim-race ./zzverif/cmd/yangsim && echo built race
+fi
